@@ -293,7 +293,7 @@ def run_case(desc):
                               "reference_value": daggen.ref_eval(case, o, K)["value"]}
                 except daggen.Missing:
                     pass
-    return v.result(keys=keys, sample=sample if desc["start"] % 500 == 0 else None)
+    return v.result(evaluations=v.counters.get("calls_compared", 0), keys=keys, sample=sample if desc["start"] % 500 == 0 else None)
 
 
 def finalize(agg, tier, seed):
